@@ -28,7 +28,7 @@ RULE = ("cases = (initial hosts-file content, backup present or not, host map / 
         "lines, other ports' markers, stale own markers (also last / preceded by blank lines), non-ASCII white "
         "space, undecodable bytes, 1-200 lines; maps of 0-50 hosts; histories of <= 30 updates followed by restore; "
         "every crash point k of every single-instance case; a refused operation at every index of small cases; "
-        "segment-level and random (thorough: exhaustive) interleavings of two instances; complete helper sessions through the real firewall.main() (fake packet-filter method and stdin: ROUTES, NSLIST, PORTS, GO, HOST lines, then EOF / read error / bad command) with the IPv4 and/or IPv6 teardown raising and with single file-system calls (chown, chmod, rename, close, write, open, stat, read of the first or a later HOST) refused, and with the helper's stderr/stdout failing (EIO, EPIPE, closed file) from a chosen point on at verbosity 0-3 through the real helpers.log/debug*; crash-recovery histories (a helper dies between writing its temporary and the rename, optionally the admin edits the file, a new session on the same port publishes fewer hosts and restores); a case is non-trivial "
+        "segment-level and random (thorough: exhaustive) interleavings of two instances; complete helper sessions through the real firewall.main() (fake packet-filter method and stdin: ROUTES, NSLIST, PORTS, GO, HOST lines, then EOF / read error / bad command) with the IPv4 and/or IPv6 teardown raising and with single file-system calls (chown, chmod, rename, close, write, open, stat, read of the first or a later HOST) refused, and with the helper's stderr/stdout failing (EIO, EPIPE, closed file) from a chosen point on at verbosity 0-3 through the real helpers.log/debug*; crash-recovery host tables at scale through the real firewall.main (1, 3, 16, 63, 64, 65, 70, 100, 257, 300, 1000 names, names re-announced with new addresses; file inspected while the session is up and after it ended; stored in the replay by generator parameters); histories (a helper dies between writing its temporary and the rename, optionally the admin edits the file, a new session on the same port publishes fewer hosts and restores); a case is non-trivial "
         "when a line was filtered, a backup made, a fault or crash injected, or two instances overlapped; "
         "distinct = distinct canonical case description; every case of every kind additionally runs at a verbosity level from the rotation [0,0,3,0,2,0,13,1] (13 = -vvv with stderr/stdout failing with EIO) indexed by a per-run case counter shifted by the seed, through the real helpers.log/debug*, and is replayed at that level")
 MANIFEST = dict(
@@ -1281,6 +1281,137 @@ def helper_case(ctx, content, hosts, with_v4, with_v6, fail, end='eof', exc='fat
     return case
 
 
+# ------------------------------------------------------------------ host tables at scale (firewall.main)
+
+def scale_hosts(n, reannounce):
+    """The HOST announcements of a scale session, from its generator parameters: n distinct names, then
+    `reannounce` of them again with a new address (the last one back to its first address: A -> B -> A)."""
+    ann = [('h%04d.scale.example' % i, '10.%d.%d.%d' % (i >> 16 & 255, i >> 8 & 255, i & 255)) for i in range(n)]
+    for j in range(reannounce):
+        i = (j * 37 + 5) % n
+        ann.append((ann[i][0], '172.16.%d.%d' % (j >> 8 & 255, j & 255)))
+    if reannounce and n:
+        ann.append(ann[(5) % n])
+    return ann
+
+
+class _ChownOnly:
+    """`os` as firewall.py sees it in a scale session: everything real except chown (patched out)."""
+
+    def chown(self, *a, **k):
+        return None
+
+    def __getattr__(self, n):
+        return getattr(os, n)
+
+
+@leveled
+def scale_case(ctx, content, n, reannounce, with_v6=False):
+    """One complete helper session through the real firewall.main() with a host table of `n` names.
+    The hosts file is inspected while the session is still up (all announcements consumed, the client
+    idle: the moment stdin would block) and after the helper ended.  Real open/os/shutil (no per-write
+    instrumentation: the table is large), os.chown patched out."""
+    import io
+    import socket
+    import sys as _sys
+    import sshuttle.firewall as fw
+    import sshuttle.helpers as helpers
+    case = Case('scale')
+    level = _CUR['level']
+    desc = dict(level=level, stream='scale', content=opt(content), n=n, reannounce=reannounce, v6=with_v6)
+    case.desc = desc
+    p6, p4 = (12300 if with_v6 else 0), 12299
+    port = p6 or p4
+    ann = scale_hosts(n, reannounce)
+    last = {}
+    for name, ip in ann:
+        last[name] = ip
+    lines = ['ROUTES', '%d,24,0,10.9.0.0,0,0' % int(socket.AF_INET)]
+    if with_v6:
+        lines.append('%d,64,0,2404:6800:4004:80c::,0,0' % int(socket.AF_INET6))
+    lines += ['NSLIST', 'PORTS %d,%d,0,0' % (p6, p4), 'GO 0 - - 0x01 %d' % os.getpid()]
+    lines += ['HOST %s,%s' % (nm, ip) for nm, ip in ann]
+    data = ('\n'.join(lines) + '\n').encode('ASCII')
+    method = _FakeMethod([], 'fatal', False)
+    root = tempfile.mkdtemp(prefix='c14s_')
+    hosts = os.path.join(root, 'hosts')
+    seen = {}
+    saved = dict(HOSTSFILE=fw.HOSTSFILE, os=fw.os, log=fw.log, setup_daemon=fw.setup_daemon,
+                 get_method=fw.get_method, flush=fw.flush_systemd_dns_cache, pid=fw.sshuttle_pid,
+                 prefix=helpers.logprefix, verbose=helpers.verbose, out=_sys.stdout, err=_sys.stderr)
+
+    def raw():
+        try:
+            with open(hosts, 'rb') as f:
+                return f.read()
+        except FileNotFoundError:
+            return None
+
+    def on_eof():
+        seen.setdefault('up', raw())     # the client has gone idle, the session is still up
+
+    ended = 'returned'
+    try:
+        if content is not None:
+            with open(hosts, 'wb') as f:
+                f.write(content)
+        fw.HOSTSFILE = hosts
+        fw.os = _ChownOnly()
+        fw.setup_daemon = lambda: (_Stdin(data, False, on_eof), io.BytesIO())
+        fw.get_method = lambda name: method
+        fw.flush_systemd_dns_cache = lambda: None
+        helpers.verbose = 3 if level == 13 else level
+        if level:
+            stream = _DyingStream('eio', 0) if level == 13 else _DyingStream('closed', 1 << 60)
+            _sys.stdout = stream
+            _sys.stderr = stream
+        else:
+            fw.log = lambda s: None
+        try:
+            fw.main('fake', False)
+        except Exception as e:  # noqa
+            ended = type(e).__name__
+        after = raw()
+    finally:
+        _sys.stdout, _sys.stderr = saved['out'], saved['err']
+        helpers.verbose = saved['verbose']
+        helpers.logprefix = saved['prefix']
+        fw.HOSTSFILE, fw.os, fw.log = saved['HOSTSFILE'], saved['os'], saved['log']
+        fw.setup_daemon, fw.get_method = saved['setup_daemon'], saved['get_method']
+        fw.flush_systemd_dns_cache, fw.sshuttle_pid = saved['flush'], saved['pid']
+        shutil.rmtree(root, ignore_errors=True)
+    ctx.hist('scale:n=%d' % n)
+    base = [l for l in py_lines(content) if not own(port, l)]
+    want_block = host_lines(port, last)
+    if 'up' not in seen:
+        ctx.corr_break('scale', case=desc, impl='stdin never reached its end (%s)' % ended, model='session consumed its input')
+        return case
+    got = py_lines(seen['up']) if n else None
+    if n:
+        blk = [l for l in got if own(port, l)]
+        rest = [l for l in got if not own(port, l)]
+        if blk != want_block:
+            missing = [l for l in want_block if l not in blk]
+            extra = [l for l in blk if l not in want_block]
+            violation(ctx, 'C14:scale:marked-lines-differ-from-announced-map-while-up', desc,
+                      dict(marked_lines=len(want_block), note='one marked line per announced name, with its last address'),
+                      dict(marked_lines=len(blk), missing=missing[:4], n_missing=len(missing), stale_or_extra=extra[:4],
+                           n_stale_or_extra=len(extra)),
+                      'hosts file inspected while the session is up, after all %d announcements were consumed'
+                      % len(ann), kind='history')
+        if rest != base:
+            violation(ctx, 'C14:scale:other-lines-changed-while-up', desc, dict(lines=base[:6]), dict(lines=rest[:6]),
+                      kind='history')
+        if py_lines(after) != trim(base):
+            left = [l for l in py_lines(after) if own(port, l)]
+            violation(ctx, 'C14:scale:lines-differ-after-end', desc, dict(lines=trim(base)[:6]),
+                      dict(lines=py_lines(after)[:6], marked_left=len(left), main_ended=ended), kind='history')
+    elif after != content or seen['up'] != content:
+        violation(ctx, 'C14:session-end:touched-file-without-own-hosts', desc, 'file untouched',
+                  dict(after=b2s(after), main_ended=ended), kind='history')
+    return case
+
+
 # ------------------------------------------------------------------ library streams
 
 def lib_cases(ctx):
@@ -1454,6 +1585,15 @@ def gen_cases(ctx):
             ff.append(('move', 1))
         cases.append(helper_case(ctx, content, hosts, True, False, set(), end=rng.choice(['eof', 'bad-command']),
                                  fs_fail=ff))
+    # host tables across the range of sizes (and re-announced names in a large table), file inspected while
+    # the session is up and after it ended; the large ones are few
+    for n, re_ in ((1, 0), (3, 2), (16, 0), (63, 0), (64, 5), (65, 0), (70, 9), (100, 0), (257, 20), (300, 0)):
+        cases.append(scale_case(ctx, base_c, n, re_, with_v6=(n % 2 == 0)))
+    cases.append(scale_case(ctx, None, 1000, 40))
+    cases.append(scale_case(ctx, base_c, 0, 0))
+    if ctx.thorough:
+        for n in (2, 15, 17, 31, 32, 33, 48, 66, 79, 80, 81, 96, 127, 128, 129, 255, 256, 511, 512, 513, 2000):
+            cases.append(scale_case(ctx, [base_c, None, b'a\r\nb'][n % 3], n, [0, 3, n // 2][n % 3]))
     # the helper's stderr/stdout go away (EIO: closed terminal, EPIPE, closed file) at verbosity 0..3,
     # through the real helpers.log / debug1-3: the clean-up must still happen
     for v in (0, 1, 2, 3):
@@ -1627,6 +1767,9 @@ def replay(ctx, rep):
                     fs_fail=[tuple(x) for x in case.get('fs_fail', [])], verbose=case.get('verbose', 0),
                     log_fail=tuple(case['log_fail']) if case.get('log_fail') else None,
                     level=case.get('level', 0))
+    elif st == 'scale':
+        scale_case(ctx, _unopt(case['content']), case['n'], case['reannounce'], with_v6=case.get('v6', False),
+                   level=case.get('level', 0))
     elif st == 'recovery':
         recovery_case(ctx, _unopt(case['content']), case['port'], _hm(case['hm1']), case['crash_back'],
                       _hm(case['hm2']), _unopt(case.get('admin', 'N')) if case.get('admin_edit') else None,
